@@ -12,12 +12,15 @@ impl ApiMessage {
         ]
         .concat()
     }
-    pub fn deserialize(buffer: &Vec<u8>) -> Self {
+    pub fn deserialize(buffer: &Vec<u8>) -> Result<Self, std::io::Error> {
+        if buffer.len() < 4 {
+            return Err(std::io::Error::from(std::io::ErrorKind::InvalidData));
+        }
         let index = u32::from_be_bytes(buffer[0..4].try_into().unwrap());
         let data = buffer[4..].to_vec();
-        ApiMessage {
+        Ok(ApiMessage {
             msg_index: index,
             data,
-        }
+        })
     }
 }
